@@ -1014,7 +1014,7 @@ USpec(amt, timeout, freq, total, provs, thr) ==
    u2: price 3, half price from the first answered request on *)
 SetupA == << BSpec("u1", "u1", 8, 4, 2, 0, 1000, 4, 0, 1), BSpec("u2", "u2", 6, 3, 4, 0, 0, 2, 1, 1) >>
 (* the same providers under one owner *)
-SetupB == << BSpec("u1", "u1", 8, 4, 2, 0, 1000, 4, 0, 1), BSpec("u2", "u1", 6, 3, 4, 0, 0, 2, 1, 1) >>
+SetupB == << BSpec("u1", "u1", 8, 4, 2, 0, 1000, 4, 0, 1), BSpec("u2", "u1", 3, 3, 4, 0, 0, 2, 1, 1) >>
 (* no discounts (F4 cannot occur) *)
 SetupC == << BSpec("u1", "u1", 8, 4, 4, 0, 0, 4, 0, 1), BSpec("u2", "u2", 6, 3, 4, 0, 0, 4, 0, 2) >>
 (* u2 priced 0btc: needs the (absent) exchange rate — finding F20 *)
@@ -1050,6 +1050,8 @@ Act_C13_QueueSound_ModF20 == [][C13_QueueSound_ModF20(st', gh')]_vars
 Inv_C13_QueueComplete == C13_QueueComplete(st)
 Act_C13_NoHalt == [][C13_NoHalt(ev')]_vars
 
+(* the prologue of a configuration must go through (otherwise the run is vacuous) *)
+Act_SetupOK == [][(~SetupDone(st)) => ev'.ok]_vars
 Act_C07_Charge == [][C07_Charge(st, ev', st')]_vars
 Act_C07_Charge_ModF4 == [][C07_Charge_ModF4(st, ev', st')]_vars
 Act_C07_Answer == [][C07_Answer(st, ev', st')]_vars
